@@ -301,6 +301,8 @@ def _job_perm(job, pygam):
             ' '.join(str(int(p)) for p in perm))
         res['N1'] = N1
         res['rhs1'] = B1.T @ (W2p * zx[perm])
+        res['sN'] = float((np.abs(B1).T @ (np.abs(W2p)[:, None] * np.abs(B1))).max())
+        res['sr'] = float((np.abs(B1).T @ np.abs(W2p * zx[perm])).max())
     return res
 
 
@@ -459,6 +461,8 @@ def _job_repl(job, pygam):
             ' '.join(str(int(v)) for v in w))
         res['N1'] = B1.T @ (uk[idx][:, None] * B1)
         res['rhs1'] = B1.T @ (uk[idx] * zx[idx])
+        res['sN'] = float((np.abs(B1).T @ (np.abs(uk[idx])[:, None] * np.abs(B1))).max())
+        res['sr'] = float((np.abs(B1).T @ np.abs(uk[idx] * zx[idx])).max())
     return res
 
 
@@ -775,8 +779,8 @@ def run(ctx):
             elif kind == 'repl' and int(head.split()[1]) != r['n_repl']:
                 ctx.disagree(mst, sig, r['n_repl'], head, 'number of replicated rows')
             else:
-                sN = np.abs(r['N1']).max() + 1e-300
-                sr = np.abs(r['rhs1']).max() + 1e-300
+                sN = r['sN'] + 1e-300           # scale of the sums of absolute terms (the sums themselves may cancel)
+                sr = r['sr'] + 1e-300
                 dN = float(np.abs(N - r['N1']).max() / sN)
                 dr = float(np.abs(rhs - r['rhs1']).max() / sr)
                 if (dN > 1e-11 or dr > 1e-9) and not confirmed:
